@@ -3,7 +3,7 @@
 (* Signatures and the simulation semantics of mutations (one app).         *)
 (*                                                                         *)
 (* An abstract project signature is a partial function                     *)
-(*     ModelName -> [table, fields, ut, uta, idx]                          *)
+(*     ModelName -> [table, fields, ut, uta, idx, cons]                          *)
 (* with fields : FieldName -> [ftype, attrs, rel].  `attrs` holds only the *)
 (* explicitly stored attributes, exactly as FieldSignature.field_attrs     *)
 (* does.  Python's None is the string "None".                              *)
@@ -163,6 +163,8 @@ Sim(mu, sig) ==
              THEN Ok([sig EXCEPT ![mu.m].ut = mu.val, ![mu.m].uta = TRUE])
         ELSE IF mu.prop = "indexes"
              THEN Ok([sig EXCEPT ![mu.m].idx = mu.ival])
+        ELSE IF mu.prop = "constraints"
+             THEN Ok([sig EXCEPT ![mu.m].cons = mu.ival])
         ELSE Fail(sig)
     [] mu.k = "RenM" ->
         IF mu.om \notin DOMAIN sig THEN Fail(sig)
@@ -196,6 +198,7 @@ NoData(fields) == [fn \in DOMAIN fields |->
 ModelEq(a, b) == /\ a.table = b.table
                  /\ NoData(a.fields) = NoData(b.fields)
                  /\ SeqSet(a.idx) = SeqSet(b.idx)
+                 /\ SeqSet(a.cons) = SeqSet(b.cons)
                  /\ ~UTChanged(b, a)
 
 SigEq(a, b) == /\ DOMAIN a = DOMAIN b
@@ -214,6 +217,7 @@ ModelDiffEmpty(a, b) ==
     /\ \A fn \in DOMAIN a.fields : FieldDiffEmpty(a.fields[fn], b.fields[fn])
     /\ ~UTChanged(a, b)
     /\ a.idx = b.idx
+    /\ a.cons = b.cons
 DiffEmpty(a, b) == /\ DOMAIN a = DOMAIN b
                    /\ \A mn \in DOMAIN a : ModelDiffEmpty(a[mn], b[mn])
 
